@@ -269,6 +269,11 @@ def mutated(ctx, cname, full):
                  b"\x30\x06\x02\x01\x01\x02\x82\x00", b"\x30\x80", b"\x30\x00", b"\x02\x01\x01"):
         for mode in (0, 1, 2):
             check_case(ctx, dict(base, dec="der", sig=frag.hex(), mode=mode), cls_hint="der-fragment")
+    # canonical DER whose INTEGERs have thousands of decimal digits (far out of range: must be an ordinary rejection)
+    for nb in (1786, 1800, 5000, 20000):
+        huge = 256 ** nb - 3
+        for rr, ss in ((huge, rs[1]), (rs[0], huge), (huge, huge)):
+            check_case(ctx, dict(base, dec="der", sig=SU.encode_ref("der", rr, ss, n).hex(), mode=nb % 3), cls_hint="der-huge-integer")
     # the valid raw signature cut at the wrong place: total length right, halves mis-sized
     whole = rb + sb
     for cut in (0, 1, l - 1, l + 1, 2 * l - 1, 2 * l):
